@@ -246,7 +246,13 @@ class Validation:
                     # trace candidates that are nearby to geom based on spatial index
                     trace_candidates = (
                         determine_trace_candidates(
-                            geom, idx, self.traces, spatial_index=self.spatial_index
+                            geom,
+                            idx,
+                            self.traces,
+                            spatial_index=self.spatial_index,
+                            extend_bounds_by=self.SNAP_THRESHOLD
+                            * self.SNAP_THRESHOLD_ERROR_MULTIPLIER
+                            * self.STACKED_DETECTOR_BUFFER_MULTIPLIER,
                         )
                         if trace_candidates is None
                         else trace_candidates
